@@ -1,5 +1,6 @@
 // "keyexchange" family (C12): KeyExchange (private modexp made reachable), Node.cpp's make_handshake_material,
 // HmacSha256, and two real Nodes that handshake with each other through the public API.
+#define HV_VIRTUAL_CLOCK
 #include "common.hpp"
 #include <random>
 #define private public
@@ -49,6 +50,32 @@ int main() {
             out.put(A.public_identity()); out.put(B.public_identity());
             out.put(oka ? 1 : 0); out.put(okb ? 1 : 0);
             const auto ka = A.session_key(idb); const auto kb = B.session_key(ida);
+            if (ka) out.raw(*ka); else out.put(-7);
+            if (kb) out.raw(*kb); else out.put(-7);
+        } else if (mode == 6) {
+            in.next(); in.next(); in.next();   // predicted scalars (the model's inputs)
+            const auto seed_a = static_cast<std::uint32_t>(in.next()), seed_b = static_cast<std::uint32_t>(in.next()),
+                       seed_b2 = static_cast<std::uint32_t>(in.next());
+            const en::PeerId ida = in.id32(), idb = in.id32();
+            en::Config ca{}; ca.identity_seed = seed_a; ca.handshake_pow_difficulty = 2;
+            en::Config cb{}; cb.identity_seed = seed_b; cb.handshake_pow_difficulty = 2;
+            en::Config cb2{}; cb2.identity_seed = seed_b2; cb2.handshake_pow_difficulty = 2;
+            en::Node A(ida, ca);
+            std::uint32_t sb = 0;
+            {
+                en::Node B(idb, cb);
+                sb = en::test::NodeTestAccess::scalar(B);
+                const auto w = B.generate_handshake_work(ida);
+                const auto w2 = A.generate_handshake_work(idb);
+                if (!(w && A.perform_handshake(idb, B.public_identity(), *w) && w2 && B.perform_handshake(ida, A.public_identity(), *w2))) { out.put(-8); return; }
+            }
+            hv::g_now_ns += 3600LL * 1'000'000'000LL;   // the peer restarts with a new identity scalar, long after the cool-down
+            en::Node B2(idb, cb2);
+            const auto w = B2.generate_handshake_work(ida);
+            const auto w2 = A.generate_handshake_work(idb);
+            if (!(w && A.perform_handshake(idb, B2.public_identity(), *w) && w2 && B2.perform_handshake(ida, A.public_identity(), *w2))) { out.put(-9); return; }
+            out.put(en::test::NodeTestAccess::scalar(A)); out.put(sb); out.put(en::test::NodeTestAccess::scalar(B2));
+            const auto ka = A.session_key(idb); const auto kb = B2.session_key(ida);
             if (ka) out.raw(*ka); else out.put(-7);
             if (kb) out.raw(*kb); else out.put(-7);
         } else if (mode == 4) {
